@@ -188,6 +188,7 @@ var (
 	prob  uint64 // a hot site acts with probability prob/1024
 	hot   [NSITES]bool
 	focus [NSITES]bool // sites inside the functions named by VERIF_PERTURB_FOCUS: always hot, act every second time
+	focusMaxUs uint64 = 2980 // longest focus sleep in microseconds (VERIF_PERTURB_FOCUS_MAXUS)
 	hits  [NSITES]uint32
 	state uint64
 )
@@ -219,6 +220,9 @@ func init() {
 	}
 	state = seed | 1
 	// focus: the functions a property is anchored in (comma separated substrings of the function name)
+	if v, err := strconv.ParseUint(os.Getenv("VERIF_PERTURB_FOCUS_MAXUS"), 10, 64); err == nil && v > 20 {
+		focusMaxUs = v
+	}
 	if f := os.Getenv("VERIF_PERTURB_FOCUS"); f != "" {
 		for i := range focus {
 			for _, sub := range strings.Split(f, ",") {
@@ -247,7 +251,7 @@ func P(id int) {
 			return
 		}
 		if mode == 2 && (r>>1)%2 == 0 {
-			time.Sleep(time.Duration(20+(r>>12)%2980) * time.Microsecond)
+			time.Sleep(time.Duration(20+(r>>12)%focusMaxUs) * time.Microsecond)
 			return
 		}
 		for k := uint64(0); k <= (r>>12)%6; k++ {
